@@ -16,6 +16,7 @@ ALSO = {
     "C09": ["C09", "C12"], "C10": ["C10"], "C11": ["C11"], "C12": ["C12"], "C13": ["C13"], "C14": ["C14"], "C15": ["C15"], "C16": ["C11"],
     "C17": ["C17", "C01"], "C18": ["C18"], "C20": ["C20"],
     # second round (all in src/build.rs): the seeded property's own check, then C05 (the same executor reports races there)
+    "C02c": ["C02", "C01"], "C06c": ["C06"], "C08c": ["C08"], "C11c": ["C11"], "C12c": ["C12"], "C13c": ["C13"], "C15c": ["C15"], "C18c": ["C18"],
     "C03b": ["C03"], "C04b": ["C04", "C05"], "C05b": ["C05"], "C09b": ["C09"], "C20b": ["C20"],
 }
 
